@@ -341,3 +341,23 @@ Theorem C14_system_registry_wf : forall cs sched,
                     p_role pe = Z.of_N (ConnectRace.ptype (ConnectRace.ini cfgk))).
 Proof. exact Compose_race.system_registry_wf. Qed.
 Print Assumptions C14_system_registry_wf.
+
+(* C14 o C15 (proofs/Compose_topology.v; the view side is C15_view_only_registered).  In the joint machine of registry
+   and topology, one step: whoever a step adds to the topology view -- by Connected after an inbound handshake or by
+   the discovery worker after Connect -- is held by the registry, with that very (address, type) record, when the
+   step ends.  [evs] is any well-formed registry history, [j] any joint event. *)
+From MevVerif Require model.Topology proofs.Compose_topology.
+Theorem C14_added_to_view_is_registered : forall evs j e q,
+  wf (evs ++ fst (Compose_topology.jemit (run evs) j)) ->
+  In e (snd (Compose_topology.jemit (run evs) j)) -> Compose_topology.added_by e = Some q ->
+  exists p pe, get p (overlays (run (evs ++ fst (Compose_topology.jemit (run evs) j)))) = Some pe /\
+               Compose_topology.tpeer pe = q.
+Proof. exact Compose_topology.step_adds_registered. Qed.
+Print Assumptions C14_added_to_view_is_registered.
+
+(* Service.Connect hands its caller exactly the record the registry holds for that peer id when it returns. *)
+Theorem C14_connect_returns_entry : forall evs c pe closed pe',
+  wf evs -> snd (connect (run evs) c pe closed) = Some pe' ->
+  get (remote c) (overlays (fst (connect (run evs) c pe closed))) = Some pe'.
+Proof. exact Compose_topology.connect_returns_entry. Qed.
+Print Assumptions C14_connect_returns_entry.
